@@ -41,6 +41,12 @@ func (c *connection) onHup(p Poll) error {
 	onRequest := c.onRequestCallback.Load()
 	needCloseByUser := onConnect == nil && onRequest == nil
 	if !needCloseByUser {
+		if onConnect != nil && c.getState() == connStateNone {
+			// The accept path has not started OnConnect yet (it always does for a connection closed by
+			// its peer). That task runs OnConnect and OnDisconnect, offers the buffered input to
+			// OnRequest and tears the connection down afterwards: it sees the closed state.
+			return nil
+		}
 		// Input that arrived while the last handler task was exiting has not been offered to OnRequest yet:
 		// start a task for it, which tears the connection down afterwards (it sees the closed state).
 		if handler, ok := onRequest.(OnRequest); ok && c.inputBuffer.Len() > 0 &&
